@@ -227,6 +227,12 @@ def hexNat (s : String) : Option Nat := (ofHex s).map beNat
 def triple (r : List Nat) (i : Nat) : String :=
   natHex32 (r.getD i 0) ++ " " ++ natHex32 (r.getD (i+1) 0) ++ " " ++ natHex32 (r.getD (i+2) 0)
 
+def jacStr (q : Jac) : String := natHex32 q.1 ++ " " ++ natHex32 q.2.1 ++ " " ++ natHex32 q.2.2
+
+def ptStr : Pt → String
+  | none => "inf"
+  | some (x, y) => natHex32 x ++ " " ++ natHex32 y
+
 /-- jac <entry> params… : run the generated formula program at value level -/
 def opJac (args : List String) : String :=
   match args with
@@ -244,7 +250,30 @@ def opJac (args : List String) : String :=
           else if name == "DoubleNonConst_r1" || name == "ToAffine" then triple r 0
           else if e.nparam == 9 then triple r 6 ++ " | " ++ triple r 0 ++ " | " ++ triple r 3
           else triple r 3 ++ " | " ++ triple r 0
-        out ++ "\t="
+        -- specification column for the public routines on well-formed operands: the result is a well-formed triple
+        -- representing the affine sum / double computed by the affine group law, independently of the formula program
+        let g (l : List Nat) (i : Nat) : Jac := (l.getD i 0, l.getD (i+1) 0, l.getD (i+2) 0)
+        let wf (q : Jac) : Bool := decide (q.1 < P) && decide (q.2.1 < P) && decide (q.2.2 < P) &&
+          (isInfJ q || fsq q.2.1 == fadd (fmul (fsq q.1) q.1) (fmul 7 (fmul (fsq (fmul (fsq q.2.2) q.2.2)) 1)))
+        let p1 := g ps 0
+        let p2 := g ps 3
+        let verdict (res : Jac) (want : Pt) : String :=
+          if wf res && Jac.toPt res == want then out else "SPEC-VIOLATION want " ++ ptStr want
+        let spec : String :=
+          if name == "AddNonConst" then
+            (if wf p1 && wf p2 then verdict (g r 6) (Pt.add (Jac.toPt p1) (Jac.toPt p2)) else "=")
+          else if name == "AddNonConst_r1" then
+            (if wf p1 && wf p2 then verdict (g r 0) (Pt.add (Jac.toPt p1) (Jac.toPt p2)) else "=")
+          else if name == "AddNonConst_r2" then
+            (if wf p1 && wf p2 then verdict (g r 3) (Pt.add (Jac.toPt p1) (Jac.toPt p2)) else "=")
+          else if name == "DoubleNonConst" then
+            (if wf p1 then verdict (g r 3) (Pt.dbl (Jac.toPt p1)) else "=")
+          else if name == "DoubleNonConst_r1" then
+            (if wf p1 then verdict (g r 0) (Pt.dbl (Jac.toPt p1)) else "=")
+          else if name == "ToAffine" then
+            (if wf p1 then verdict (g r 0) (Jac.toPt p1) else "=")
+          else "="
+        out ++ "\t" ++ spec
     | _, _ => "bad-args"
   | _ => "bad-args"
 
@@ -269,12 +298,6 @@ def opDecompressY (args : List String) : String :=
       | _ => "no-path"
     | none => "bad-hex"
   | _ => "bad-args"
-
-def jacStr (q : Jac) : String := natHex32 q.1 ++ " " ++ natHex32 q.2.1 ++ " " ++ natHex32 q.2.2
-
-def ptStr : Pt → String
-  | none => "inf"
-  | some (x, y) => natHex32 x ++ " " ++ natHex32 y
 
 /-- scalar argument as the code reads it (SetByteSlice: reduce once) -/
 def scalarArg (s : String) : Option Nat := (ofHex s).map fun b => (scalarSetByteSlice b).1
